@@ -59,18 +59,26 @@ def mk_type(t, fresh=False):
         out = boolean if t == 'bool' else UINTS[t]
     else:
         k = t[0]
+
+        def P(n):
+            # spec-style constants: about every sixth length / limit is given as a `uint64` (as `MAX_X = uint64(..)` constants are)
+            n = int(n)
+            if os.environ.get('VERIF_NO_UINT_PARAMS') or n >= 2 ** 32:
+                return n
+            import hashlib as _h
+            return uint64(n) if int(_h.sha1(('P' + key).encode()).hexdigest(), 16) % 6 == 0 else n
         if k == 'bv':
-            out = Bitvector[int(t[1])]
+            out = Bitvector[P(t[1])]
         elif k == 'bl':
-            out = Bitlist[int(t[1])]
+            out = Bitlist[P(t[1])]
         elif k == 'Bv':
-            out = ByteVector[int(t[1])]
+            out = ByteVector[P(t[1])]
         elif k == 'Bl':
-            out = ByteList[int(t[1])]
+            out = ByteList[P(t[1])]
         elif k == 'vec':
-            out = Vector[mk_type(t[1]), int(t[2])]
+            out = Vector[mk_type(t[1]), P(t[2])]
         elif k == 'list':
-            out = List[mk_type(t[1]), int(t[2])]
+            out = List[mk_type(t[1]), P(t[2])]
         elif k == 'cont':
             out = mk_container(t, key)
         elif k == 'union':
@@ -1654,9 +1662,53 @@ def run_uop(op, xw, xv, yw, yv):
             x = subclass_of(int(xw))(int(xv))
         elif yw != '-' and (int(xv) + int(yv)) % 3 == 1 and (int(xv) * 7 + int(yv)) % 2 == 0:
             y = subclass_of(int(yw))(int(yv))
+        # `x op x`: both operands are ONE object (`acc += acc`, `x * x`)
+        if xw != '-' and xw == yw and int(xv) == int(yv) and type(x) is type(y):
+            y = x
     except Exception:
         return 'p.r=badoperand'
-    return 'p.r=%s' % E(lambda: res_str(PYOPS[op](x, y)))
+    # "a value of the uint operand's own type": the class of the (left-most) uint operand, a subclass included
+    own = type(x) if isinstance(x, uint) else (type(y) if isinstance(y, uint) else None)
+
+    def run():
+        r = PYOPS[op](x, y)
+        if isinstance(r, uint) and own is not None and type(r) is not own:
+            return 'wrongclass:%s' % type(r).__name__
+        return res_str(r)
+    return 'p.r=%s' % E(run)
+
+
+def own_type_res(a, f):
+    """result text of the unary operation f on the uint a; the result must be of a's own class"""
+    r = f(a)
+    if isinstance(r, uint) and type(r) is not type(a):
+        return 'wrongclass:%s' % type(r).__name__
+    return res_str(r)
+
+
+def mk_uint_maybe_sub(w, v):
+    """every third time an instance of a subclass (`byte`, `class Slot(uintN)`) — created after the parent class was used"""
+    w, v = int(w), int(v)
+    return subclass_of(w)(v) if v % 3 == 0 else UINT_BY_W[w](v)
+
+
+_BE = [None]
+
+
+def be_query(t, v):
+    """ask the big-endian child process (harness/be_child.py; started on first use)"""
+    import subprocess
+    if _BE[0] is None:
+        _BE[0] = subprocess.Popen([sys.executable, '-B', os.path.join(os.path.dirname(os.path.abspath(__file__)), 'be_child.py')],
+                                  stdin=subprocess.PIPE, stdout=subprocess.PIPE, text=True)
+    ch = _BE[0]
+    try:
+        ch.stdin.write(show(t) + '\t' + show(v) + '\n')
+        ch.stdin.flush()
+        ans = ch.stdout.readline().strip()
+    except Exception:
+        ans = ''
+    return ans or 'childcrash'
 
 
 def run_case(line):
@@ -1670,6 +1722,8 @@ def run_case(line):
         return run_tsize(c[1])
     if k == 'inh':
         return run_inh(c[1], c[2], c[3])
+    if k == 'be':
+        return 'p.be=%s' % be_query(c[1], c[2])
     if k == 'tnav':
         return run_tnav(c[1])
     if k == 'hist':
@@ -1692,8 +1746,8 @@ def run_case(line):
         return run_uop(*c[1:])
     if k == 'uun':
         def un():
-            a = UINT_BY_W[int(c[2])](int(c[3]))
-            return res_str({'neg': lambda v: -v, 'pos': lambda v: +v, 'abs': abs}[c[1]](a))
+            a = mk_uint_maybe_sub(c[2], c[3])
+            return own_type_res(a, {'neg': lambda v: -v, 'pos': lambda v: +v, 'abs': abs}[c[1]])
         return 'p.r=%s' % E(un)
     if k == 'upow3':
         # three-argument power; the modulus is a plain int or (every second time, when it fits) a uint of another width
@@ -1718,7 +1772,7 @@ def run_case(line):
             return 'p.r=badoperand'
         return 'p.r=%s' % E(refl)
     if k == 'uinv':
-        return 'p.r=%s' % E(lambda: res_str(~UINT_BY_W[int(c[1])](int(c[2]))))
+        return 'p.r=%s' % E(lambda: own_type_res(mk_uint_maybe_sub(c[1], c[2]), lambda v: ~v))
     if k == 'uctorw':
         return 'p.r=%s' % E(lambda: str(int(UINT_BY_W[int(c[1])](UINT_BY_W[int(c[2])](int(c[3]))))))
     if k == 'uctor':
